@@ -1374,6 +1374,63 @@ def toctou_scenarios(tables, lt, lc, pt, pc):
     return out
 
 
+def concurrent_scenarios(tables, lt, lc, pt, pc, ot, oc):
+    """another cache object stores table `ot` under checksum `oc` in a directory of ours while we connect:
+    its open / two writes / (rename) / close are interleaved with our recorded steps at every position"""
+    out = []
+    conn = ['connect', lt, lc, pt, pc]
+    okind = tables[ot]['kind']
+    check = ['connect', ot, oc, pt, pc] if okind == 'log' else ['connect', lt, lc, ot, oc]
+    for n in range(0, 17):
+        for pat, sched in (('burst', {n: 4}), ('split', {n: 3, n + 1: 2}), ('spread', {n: 1, n + 1: 1, n + 2: 1, n + 3: 2})):
+            for (ro, rw, od) in (('none', 'A', 'A'), ('B', 'A', 'A'), ('B', 'A', 'B')):
+                if od == 'B' and pat != 'split':
+                    continue
+                env_at = {}
+                first = True
+                for pos in sorted(sched):
+                    ops = []
+                    for _i in range(sched[pos]):
+                        ops.append(['obegin', od, oc, ot] if first else ['ostep'])
+                        first = False
+                    env_at[str(pos)] = ops
+                pre = proc('none', 'B', ['connect', lt, lc ^ 0x77, pt, pc ^ 0x77]) if ro == 'B' else []
+                out.append({'tables': tables, 'family': 'concurrent:%s:%s%s' % (pat, rw, od),
+                            'ops': pre + [['start', ro, rw], conn + [{'env_at': env_at}], ['close'], ['exit']] +
+                            proc(ro, rw, conn) + proc('none', od, check) + proc('none', 'A', conn)})
+    return out
+
+
+def openfail_scenarios(tables, lt, lc, pt, pc):
+    """the read-write directory cannot be written when the downloaded table is to be stored: the directory was
+    removed after the TocCache object was constructed, or the name of the cache file is taken by a directory"""
+    out = []
+    conn = ['connect', lt, lc, pt, pc]
+    for (ro, rw) in (('none', 'A'), ('B', 'A')):
+        pre = proc('none', 'B', conn) if ro == 'B' else []
+        for dmg, name in ((['rmdir', 'A'], 'rmdir'), (['blockname', 'A', crc_str(lc)], 'blocklog'),
+                          (['blockname', 'A', crc_str(pc)], 'blockparam'), (['rmdir', 'B'], 'rmdir_ro')):
+            if dmg == ['rmdir', 'B'] and ro != 'B':
+                continue
+            wipe = [['remove', 'B', crc_str(lc)]] if (ro == 'B' and name != 'rmdir_ro') else []
+            fam = 'openfail:%s:%s' % (name, ro + rw)
+            out.append({'tables': tables, 'family': fam + ':constructed',
+                        'ops': pre + wipe + [['start', ro, rw], dmg, conn, ['close'], conn, ['close'], ['exit']] +
+                        proc(ro, rw, conn) + proc(ro, rw, conn)})
+            for k in ('log', 'param'):
+                out.append({'tables': tables, 'family': fam + ':prefetch',
+                            'ops': pre + wipe + [['start', ro, rw], conn + [{'pre': {k: [dmg]}}], ['close'], ['exit']] +
+                            proc(ro, rw, conn) + proc(ro, rw, conn)})
+            out.append({'tables': tables, 'family': fam + ':between',
+                        'ops': pre + wipe + [['start', ro, rw], conn, ['close'], dmg, ['remove', 'A', crc_str(pc)], conn,
+                                             ['close'], ['exit']] + proc(ro, rw, conn)})
+            # a populated rw directory: the file is there, then its name is blocked / the directory goes
+            out.append({'tables': tables, 'family': fam + ':warm',
+                        'ops': pre + wipe + proc(ro, rw, conn) + [['start', ro, rw], dmg, conn, ['close'], ['exit']] +
+                        proc(ro, rw, conn)})
+    return out
+
+
 SWEEP_MODES = ('rw_cut', 'rw_crash', 'ro_cut_rw_absent', 'ro_ok_rw_cut', 'ro_cut_rw_ok', 'ro_only_cut')
 
 
@@ -1482,6 +1539,9 @@ def random_scenarios(rng, n):
 
                 def some_env():
                     d, c = rng.choice(['A', 'B']), crc_str(rng.choice(crcs))
+                    if rng.random() < 0.15:
+                        return rng.choice([['rmdir', d], ['blockname', d, c], ['obegin', d, rng.choice(crcs), rng.choice([2, 3])],
+                                           ['ostep']])
                     return rng.choice([['remove', d, c], ['cut', d, c, rng.choice([0, 1, rng.randint(0, 600), -1])],
                                        ['garbage', d, c, rng.choice(UNPARSABLE + FALSY + NOTATABLE)],
                                        ['copy', d, c, 'B' if d == 'A' else 'A']])
@@ -1757,12 +1817,12 @@ def main(tier, seed, replay=None):
         return out.finish()
 
     # 1. design spec: exhaustive; every Bug_* configuration must be refuted (vacuity guard)
-    cfgs = ['MC_TocCache_quick.cfg'] if quick else ['MC_TocCache_thorough.cfg', 'MC_TocCache_thorough_empty.cfg',
-                                                    'MC_TocCache_thorough_empty2.cfg']
+    cfgs = ['MC_TocCache_quick.cfg', 'MC_TocCache_quick_other.cfg'] if quick else ['MC_TocCache_thorough.cfg', 'MC_TocCache_thorough_empty.cfg',
+                                                    'MC_TocCache_thorough_empty2.cfg', 'MC_TocCache_thorough_other.cfg']
     for cfg in cfgs:
         r = tlc.check('MC_TocCache.tla', cfg, coverage=not quick, timeout=3000, workers=TLC_WORKERS, heap='4g')
         out.add_tlc(cfg, r)
-    for b in ('suffix', 'partial', 'escape', 'toctou', 'rowrite', 'dropfield'):
+    for b in ('suffix', 'partial', 'escape', 'toctou', 'rowrite', 'dropfield', 'sharedtmp', 'openfail', 'nontable'):
         rb = tlc.expect_violation('MC_TocCache.tla', 'MC_TocCache_bug_%s.cfg' % b, timeout=900, workers=TLC_WORKERS, heap='2g')
         out.sensitivity['spec:Bug=' + b] = 'refuted (%s) after %d states' % (rb.violated, rb.distinct)
 
@@ -1828,6 +1888,11 @@ def main(tier, seed, replay=None):
                                stride=1 if (not quick or ln[crc_str(LC)] == 2) else 5)
     scs += crash_everywhere_scenarios(base, 0, LC, 1, PC)
     scs += toctou_scenarios(base, 0, LC, 1, PC)
+    third = base + [all_types_table('log'), all_types_table('param')]
+    scs += concurrent_scenarios(third, 0, LC, 1, PC, 2, 0x0BADF00D)
+    if not quick:
+        scs += concurrent_scenarios(third, 0, LC, 1, PC, 3, 0x0BADF00D)
+    scs += openfail_scenarios(base, 0, LC, 1, PC)
     if not quick:
         scs += toctou_scenarios(big, 0, LC, 1, PC)
     n_offsets = sum(sum(1 for o in sc['ops'] if o[0] == 'cut' or (o[0] == 'connect' and len(o) > 5 and 'wk' in o[5])) for sc in scs)
